@@ -12,7 +12,14 @@ import (
 // C19: language-value containers behave as ordered maps from language tag to text.
 
 var nlvTags = []vocab.LangRef{vocab.NilLangRef, "en", "fr"}
-var nlvTexts = []string{"a", "b", "c"}
+var nlvTexts = []string{"a", "b", "c", "", ""} // index 3: empty text, index 4: nil text
+
+func nlvContent(i int) vocab.Content {
+	if i == 4 {
+		return nil
+	}
+	return vocab.Content(nlvTexts[i])
+}
 
 type nlvOp struct {
 	Op  byte // S(et) A(ppend) D(add) G(et)
@@ -101,7 +108,7 @@ func runNLVHistory(c *Ctx, ops []nlvOp) {
 		switch o.Op {
 		case 'S':
 			before := append([]lv{}, model...)
-			if c.Guard("NaturalLanguageValues.Set", func() { _ = n.Set(tag, vocab.Content(txt)) }) {
+			if c.Guard("NaturalLanguageValues.Set", func() { _ = n.Set(tag, nlvContent(o.Txt)) }) {
 				return
 			}
 			// statement: Get(tag)=v afterwards, every other tag's text and the order unchanged, grows by at most one
@@ -134,12 +141,12 @@ func runNLVHistory(c *Ctx, ops []nlvOp) {
 				}
 			}
 		case 'A':
-			if c.Guard("NaturalLanguageValues.Append", func() { _ = n.Append(tag, vocab.Content(txt)) }) {
+			if c.Guard("NaturalLanguageValues.Append", func() { _ = n.Append(tag, nlvContent(o.Txt)) }) {
 				return
 			}
 			model = append(model, lv{tag, txt})
 		case 'D':
-			if c.Guard("NaturalLanguageValues.Add", func() { n.Add(vocab.LangRefValue{Ref: tag, Value: vocab.Content(txt)}) }) {
+			if c.Guard("NaturalLanguageValues.Add", func() { n.Add(vocab.LangRefValue{Ref: tag, Value: nlvContent(o.Txt)}) }) {
 				return
 			}
 			model = append(model, lv{tag, txt})
@@ -224,6 +231,31 @@ func init() {
 			}
 		}
 	}
+	// a second alphabet that also hands over empty and nil texts (an entry that is present but has no text)
+	var alphabetE []nlvOp
+	for _, op := range []byte{'S', 'A', 'D', 'X'} {
+		for t := range nlvTags {
+			for _, x := range []int{0, 1, 3, 4} {
+				alphabetE = append(alphabetE, nlvOp{op, t, x})
+			}
+		}
+	}
+	nE := len(alphabetE)
+	totalE := nE + nE*nE + nE*nE*nE
+	decodeE := func(idx int) []nlvOp {
+		l, pw := 1, nE
+		for idx >= pw {
+			idx -= pw
+			pw *= nE
+			l++
+		}
+		ops := make([]nlvOp, l)
+		for i := range ops {
+			ops[i] = alphabetE[idx%nE]
+			idx /= nE
+		}
+		return ops
+	}
 	const L = 4
 	total, pw := 0, 1
 	for l := 1; l <= L; l++ {
@@ -247,7 +279,7 @@ func init() {
 	lists := dupFreeLists()
 	Register(&Prop{
 		ID: "C19",
-		Rule: fmt.Sprintf("model: ordered list of (tag,text), Get = first match; exhaustive layer: all %d histories of length <= %d over {Set, Append, Add, Set-with-a-text-obtained-from-Get (shared bytes)} x 3 tags (incl. the nil tag) x 2 texts, with Get for every tag, Count, First and the entries compared after every step, and the statement's Set clauses (Get(tag)=v, other tags and order unchanged, grows by <= 1) checked on each Set; equality layer: all %d x %d ordered pairs of duplicate-free lists over 3 tags x 3 texts incl. the empty text (length <= 3, every order): a.Equals(b) <=> same set of pairs; random histories to length 30; distinct = history / list pair; non-trivial = history containing a Set on a present tag or a repeated tag, or lists of length >= 2",
+		Rule: fmt.Sprintf("model: ordered list of (tag,text), Get = first match; exhaustive layer: all %d histories of length <= %d over {Set, Append, Add, Set-with-a-text-obtained-from-Get (shared bytes)} x 3 tags (incl. the nil tag) x 2 texts, and all histories of length <= 3 over the same operations x 3 tags x {2 texts, the empty text, the nil text}, with Get for every tag, Count, First and the entries compared after every step, and the statement's Set clauses (Get(tag)=v, other tags and order unchanged, grows by <= 1) checked on each Set; equality layer: all %d x %d ordered pairs of duplicate-free lists over 3 tags x 3 texts incl. the empty text (length <= 3, every order): a.Equals(b) <=> same set of pairs; random histories to length 30; distinct = history / list pair; non-trivial = history containing a Set on a present tag or a repeated tag, or lists of length >= 2",
 			total, L, len(lists), len(lists)),
 		Layers: func(tier string) []Layer {
 			return []Layer{
@@ -265,6 +297,12 @@ func init() {
 					if idx%20000 == 0 {
 						c.Sample(map[string]any{"history": nlvOpsString(ops), "legend": "S=Set A=Append D=Add, then tag index, text index"})
 					}
+					runNLVHistory(c, ops)
+				}},
+				{Name: "histories<=3-empty-texts", N: totalE, Exhaustive: true, Run: func(c *Ctx, idx int) {
+					ops := decodeE(idx)
+					c.Distinct("hE|"+nlvOpsString(ops), true)
+					c.Count("histories-with-empty-texts", 1)
 					runNLVHistory(c, ops)
 				}},
 				{Name: "equality-pairs", N: len(lists), Exhaustive: true, Run: func(c *Ctx, idx int) {
